@@ -492,6 +492,25 @@ def fam_snap_rec(tier: str, rng: random.Random) -> Iterator[dict]:
                         yield p
 
 
+def fam_rec_args(tier: str, rng: random.Random) -> Iterator[dict]:
+    """C05: overlapping calls of one callable with different arguments (the body calls the callable again): the
+    postconditions, error factories and invariants of every call see the arguments of THAT call."""
+    for isasync in (False, True):
+        for kind in ("func", "method", "static"):
+            for npre in (0, 1):
+                for post_truth in ([True, True, True], [True, True, False], [True, False, True]):
+                    for form in ("default", "factory"):
+                        p = member_prog(kind, kind == "method", [[1]] if npre else [], 2, 0, [True] * npre, [True, True],
+                                        [form], False, isasync, arg=2, ncalls=2, tag="rec-args")
+                        if p is None:
+                            continue
+                        f = len(p["fn"])
+                        p["fn"][f - 1]["script"] = [Op("call", f, -1 if kind == "method" else 0, 1, when=2)]
+                        posts = [c for c in p["con"] if c["role"] == "post"]
+                        posts[-1]["truth"] = list(post_truth)
+                        yield p
+
+
 def fam_errdefaults(tier: str, rng: random.Random) -> Iterator[dict]:
     """C09: error factories all of whose parameters carry default values still receive the values of the call."""
     for p in fam_err(tier, rng):
